@@ -73,6 +73,7 @@ type vRecorder struct {
 	nAppUpd    int
 	lastState  string
 	nNewAlloc  int
+	nRejected  int
 	other      int
 }
 
@@ -101,6 +102,8 @@ func (r *vRecorder) HandleEvent(ev interface{}) {
 			c := e.Channel
 			go func() { c <- &rmevent.Result{Succeeded: true} }()
 		}
+	case *rmevent.RMRejectedAllocationEvent:
+		r.nRejected += len(e.RejectedAllocations)
 	default:
 		r.other++
 	}
@@ -172,7 +175,7 @@ func (w *vPW) snap(app *objects.Application) vPSnap {
 		s.nodeAvail[j] = vecOf(n.GetAvailableResource())
 	}
 	if app != nil {
-		s.appAlloc = vecOf(app.GetAllocatedResource())
+		s.appAlloc = vecOf(resources.Add(app.GetAllocatedResource(), app.GetPlaceholderResource()))
 		s.appPend = vecOf(app.GetPendingResource())
 	}
 	return s
